@@ -4,7 +4,7 @@
    Model = otto's builtin_string.go over Go strings with its byte / rune / unit conversions (C09/Model.v);
    the correspondence run ties Model to the interpreter built from /repo on every check. *)
 From Coq Require Import ZArith List Bool.
-From Otto Require Import Common.Double C09.Utf C09.Spec C09.Model C09.Proofs C09.Corr.
+From Otto Require Import Common.Double C09.Utf C09.Spec C09.Model C09.SpecObj C09.ModelObj C09.Proofs C09.Corr.
 Import ListNotations.
 Open Scope Z_scope.
 
@@ -313,6 +313,39 @@ Theorem C09_prototype_tostring_refuted :   (* String.prototype.toString = () => 
 Proof. exists [122; 122; 122], [97; 97; 97], [97]. vm_compute. split; reflexivity. Qed.
 Print Assumptions C09_prototype_tostring_refuted.
 
+(* ---------- index properties of String objects (15.5.5.2) ---------- *)
+
+(* at or beyond the length the ordinary property map alone answers, in every state *)
+Theorem C09_index_beyond_is_ordinary : forall u st k, zlen u <= k \/ k < 0 ->
+  own_get u st LS k = lookup k (m_s st).
+Proof. exact own_get_beyond. Qed.
+Print Assumptions C09_index_beyond_is_ordinary.
+
+(* below the length: the code unit, read-only, enumerable, permanent; writes and deletes are refused *)
+Theorem C09_index_inrange : forall u st k v, 0 <= k < zlen u -> lookup k (m_s st) = None ->
+  own_get u st LS k = Some (PData (PStr [unit_at u k]) false true false) /\
+  put u st LS k v = st /\ delete u st LS k = (st, false).
+Proof.
+  intros u st k v H L. split; [exact (own_get_inrange u st k H L) | exact (inrange_write_refused u st k v H L)].
+Qed.
+Print Assumptions C09_index_inrange.
+
+(* otto's defineProperty = ES5 at or beyond the length of the String object and on both prototypes *)
+Theorem C09_define_beyond_refines : forall u st l k d,
+  (l = LS -> zlen u <= k \/ k < 0) ->
+  define_model u st l k d = define_spec u st l k d.
+Proof. exact define_beyond_refines. Qed.
+Print Assumptions C09_define_beyond_refines.
+
+Theorem C09_define_inrange_refuted :   (* s = new String("abc"); Object.defineProperty(s, "1", {value: "x"}); s[1] *)
+  exists u ops, run_obj (model_obj u) empty_state ops = Some [VInt 1; VStr [120]] /\
+                run_obj (spec_obj u) empty_state ops = Some [VErr 6; VStr [98]].
+Proof.
+  exists [97; 98; 99], [ODefine LS 1 (DD (Some (PStr [120])) None None None); OGet 1].
+  vm_compute. split; reflexivity.
+Qed.
+Print Assumptions C09_define_inrange_refuted.
+
 (* ---------- non-vacuity: the hypotheses above are met by concrete values ---------- *)
 Example C09_ascii_hyp_met : ascii [97; 98; 99] /\ bmp_clean [233; 26085; 97] /\ ~ In 0xFFFD [233; 26085; 97] /\ zlen [233; 26085; 97] < 2 ^ 62.
 Proof.
@@ -340,6 +373,10 @@ Proof. vm_compute. repeat split; discriminate. Qed.
 Example C09_order_hyp_met : MIndexOf <> MSplit /\ MIndexOf <> MLastIndexOf /\
   plan_spec MIndexOf [EPlain AUndef; EPlain AUndef] = [(0%nat, KS); (1%nat, KN)] /\ [97] <> (@nil Z).
 Proof. repeat split; discriminate. Qed.
+Example C09_index_hyp_met : 0 <= 1 < zlen [97; 98; 99] /\ lookup 1 (m_s empty_state) = None /\
+  run_obj (spec_obj [97; 98; 99]) empty_state [OSet LS 5 (PNum 7); OGet 5; OSet LS 1 (PNum 7); OGet 1] =
+  Some [VUndef; VInt 7; VUndef; VStr [98]].
+Proof. vm_compute. repeat split; discriminate. Qed.
 Example C09_receiver_hyp_met : RNumR 5 <> RUndef /\ this_gostring MTrim (RNumR 5) = Some [53] /\
   call_model MSubstr RNull [n 1] = Some (VErr 6).
 Proof. repeat split; try discriminate. Qed.
